@@ -1,7 +1,7 @@
 """C05 generator: one `memref.copy %src, %dst` between two memrefs of equal shape, each side with its own layout.
 
 Case recipe (plain JSON):
-  {"elt": "i8|i16|i32|i64",
+  {"elt": "i8|i16|i32|i64|i1|i4",
    "tb":  [[b_outer, ..., b_inner], ...]   run-time tile bounds per logical dimension (ints >= 1, outermost first)
    "dyn": [bool, ...]                      the memref dimension is `?`; its size (= product of tb[d]) is only known at run time
    "src": side, "dst": side,
@@ -34,7 +34,7 @@ from hypothesis import strategies as st
 
 from . import gen_tsl as G
 
-ELSIZE = {"i8": 1, "i16": 2, "i32": 4, "i64": 8}
+ELSIZE = {"i8": 1, "i16": 2, "i32": 4, "i64": 8, "i1": 1, "i4": 1}  # sub-byte types occupy one byte per element (FixedBitwidthType.size rounds up)
 _BOUNDS = [1, 2, 2, 2, 3, 3, 4, 4, 4, 5, 6, 7, 8, 8]
 _RT = [1, 2, 3, 4, 5]
 _OFFSET = [0, 0, 0, 1, 5, 7, 64, 1000]
@@ -391,7 +391,7 @@ def case(draw, tier="quick", kinds=None, static_only=False):
             same_b = [e for e in range(n) if e != d and sizes[e] == sizes[d]]
             others = same_b if (same_b and draw(st.integers(0, 3)) > 0) else [e for e in range(n) if e != d]
             src["strides"][d] = src["strides"][draw(st.sampled_from(others))] if others else 1
-    return dict(elt=draw(st.sampled_from(["i8", "i16", "i32", "i32", "i64"])), tb=rt_tb, dyn=dyn, src=src, dst=dst,
+    return dict(elt=draw(st.sampled_from(["i8", "i8", "i16", "i16", "i32", "i32", "i32", "i64", "i64", "i1", "i4"])), tb=rt_tb, dyn=dyn, src=src, dst=dst,
                 bs=draw(st.integers(0, 9)), bd=draw(st.integers(0, 9)), fam=fam)
 
 
